@@ -156,8 +156,13 @@ package netconf
 //@   at return assert #the-built-request-is-returned result == netconfInput
 
 // ---- C07 ----------------------------------------------------------------------------------------------------------------
+// the driver's own reader loop is told to stop before the channel under it is closed: once the channel is closed every
+// read the loop makes fails, it forwards that error on d.errs where nobody is listening any more, and would never get
+// back to the top of its loop to take the stop signal - Close would then block on the signal for ever
+//@ chanmode Driver.done count
 //@ func (*Driver).Close [C07]
 //@   ensures #channel-closed implClosed
+//@   at call! Close#1 assert #the-netconf-reader-is-stopped-before-the-channel-is-closed recv == d.Channel && chlen(d.done) == old(chlen(d.done)) + 1
 
 // ---- C08: the reader loop examines everything it has read, and files every complete message under its id ------------
 // bHead: ghost snapshot of the buffer at the top of the iteration. msgID: the id the loop extracts from a message.
